@@ -122,14 +122,24 @@ def _install_disk():
 # subjects
 # ---------------------------------------------------------------------------------------------
 class Subject:
-    def __init__(self, recipe, obj, probes, label):
+    def __init__(self, recipe, obj, probes, label, lazy=False):
         self.recipe = recipe          # JSON: [["build", spec], ["transform", name, args], ...]
         self.obj = obj
         self.label = label            # e.g. pandas/dfs, polars/column, pandas/model
         self.probes = probes          # frame specs
-        self.fp0 = self.fingerprint()
-        self.snapshot = self._snap()
-        self.eq_ok = self._eq_snapshot()
+        # A DataFrameModel compiles and caches its schema on first use.  A *lazy* model subject is left uncompiled until a
+        # history operation touches it (so that e.g. a subclass can be the first of the family to be compiled): its entry
+        # fingerprint is that of a twin class built from the same recipe (equal by construction), and it has no `==` snapshot.
+        self.lazy = bool(lazy and isinstance(obj, type))
+        self.touched = not self.lazy
+        if self.lazy:
+            twin = build_from_recipe(recipe)
+            self.fp0 = fp(twin.to_schema())
+            self.snapshot, self.eq_ok = None, None
+        else:
+            self.fp0 = self.fingerprint()
+            self.snapshot = self._snap()
+            self.eq_ok = self._eq_snapshot()
         self.ref = None               # twin verdicts, computed lazily from a fresh twin
         self.op_kinds = set()
 
@@ -263,6 +273,8 @@ def gen_history(rng, idx, tier):
                 continue
             probes = [gg.frame_for(spec, conform=1.0), gg.frame_for(spec, conform=0.0), gg.frame_for(spec, conform=0.3)]
             subjects.append({"spec": spec, "probes": probes})
+            if kind == "model":
+                subjects[-1]["lazy_compile"] = kernel.derive(rng.getrandbits(32), "lazy").random() < 0.5
             break
     if not subjects:
         raise kernel.HarnessError("no constructible subject")
@@ -306,7 +318,7 @@ class World:
         for s in hist["subjects"]:
             recipe = [["build", s["spec"]]]
             obj = build_from_recipe(recipe)
-            self.pool.append(Subject(recipe, obj, s["probes"], f"{s['spec']['backend']}/{s['spec']['kind']}"))
+            self.pool.append(Subject(recipe, obj, s["probes"], f"{s['spec']['backend']}/{s['spec']['kind']}", lazy=s.get("lazy_compile")))
 
     def bump(self, k, n=1):
         self.stats[k] = self.stats.get(k, 0) + n
@@ -315,6 +327,8 @@ class World:
     def check_all(self, op_index, opname, touched):
         found = []
         for si, s in enumerate(self.pool):
+            if not s.touched:
+                continue        # a lazy model subject nobody has used yet stays uncompiled
             f1 = s.fingerprint()
             if f1 != s.fp0:
                 for what in classify(diff_paths(s.fp0, f1, limit=40)):
@@ -373,6 +387,7 @@ class World:
             s = self.pool[si]
             rng = kernel.derive(op["r"], "op")
             name = op["op"]
+            s.touched = True
             try:
                 res = self.execute(name, s, si, rng)
             except kernel.HarnessError:
@@ -393,6 +408,7 @@ class World:
                 return
         # end of history: every subject's verdicts, on its probe frames and on fresh frames it has never seen
         for si in range(len(self.pool)):
+            self.pool[si].touched = True
             found = self.check_verdicts(si, len(self.hist["ops"]), "end-of-history")
             if not found:
                 found = self.check_fresh_frames(si)
@@ -578,7 +594,8 @@ def op_str_repr(w, s, si, rng):
 
 def op_compare(w, s, si, rng):
     o = s.schema_obj()
-    r = [o == s.snapshot, o != s.snapshot, o == 5]
+    snap = s.snapshot if s.snapshot is not None else copy.deepcopy(o)
+    r = [o == snap, o != snap, o == 5]
     for c in getattr(o, "checks", []) or []:
         hash(c)
         r.append(c == copy.deepcopy(c))
